@@ -161,6 +161,10 @@ theorem shape_step (C : Crypto) (bs : Array Bytes) (wfork : Nat) (c : Core) (d :
         | ok r =>
           obtain ⟨j0, bu⟩ := r
           simp only []
+          by_cases henc : Core.encodable cs = true
+          swap
+          · rw [if_neg henc]; exact Or.inr ⟨hT, rfl, hf⟩
+          rw [if_pos henc]
           unfold Core.applyVerified
           simp only []
           cases hcm : c.tree.commit cs with
